@@ -69,3 +69,60 @@ Proof.
   - rewrite !String.eqb_refl. reflexivity.
   - destruct (String.eqb k ks && String.eqb n t)%bool; apply IH.
 Qed.
+
+(* ---- "last row wins" as a theorem: the row of (ks, t) after which no other row of (ks, t)
+        follows decides, whatever stands before it and whatever other tables follow ---- *)
+Definition row_is (ks t : string) (x : st_row) : bool :=
+  (String.eqb (fst (fst x)) ks && String.eqb (snd (fst x)) t)%bool.
+
+Lemma partitioners_get_app a : forall b ks t acc,
+  partitioners_get (a ++ b)%list ks t acc = partitioners_get b ks t (partitioners_get a ks t acc).
+Proof.
+  induction a as [|[[k n] p] r IH]; intros b ks t acc; cbn [partitioners_get app]; [reflexivity|].
+  destruct (String.eqb k ks && String.eqb n t)%bool; apply IH.
+Qed.
+
+Lemma partitioners_get_nomatch r ks t : forall acc,
+  forallb (fun x => negb (row_is ks t x)) r = true -> partitioners_get r ks t acc = acc.
+Proof.
+  induction r as [|[[k n] p] r IH]; intros acc H; cbn [partitioners_get]; [reflexivity|].
+  cbn [forallb] in H. apply andb_true_iff in H as [H1 H2]. unfold row_is in H1. cbn [fst snd] in H1.
+  apply negb_true_iff in H1. rewrite H1. apply IH. exact H2.
+Qed.
+
+Theorem partitioners_get_last_row r1 r2 ks t p :
+  forallb (fun x => negb (row_is ks t x)) r2 = true ->
+  partitioners_get (r1 ++ ((ks, t), p) :: r2)%list ks t None = Some p.
+Proof.
+  intros H. rewrite partitioners_get_app. cbn [partitioners_get]. rewrite !String.eqb_refl. cbn [andb].
+  apply partitioners_get_nomatch. exact H.
+Qed.
+
+Theorem cdc_table_last_row r1 r2 ks t name chunks :
+  forallb (fun x => negb (row_is ks t x)) r2 = true -> ends_with name cdc_suffix = true ->
+  feed (prepared_partitioner (Some (r1 ++ ((ks, t), Some name) :: r2)%list) true (Some (ks, t))) chunks
+  = cdc_token_spec (List.concat chunks).
+Proof.
+  intros H He. apply (cdc_table_chain _ ks t name chunks); [apply partitioners_get_last_row; exact H|exact He].
+Qed.
+
+Theorem murmur3_table_last_row r1 r2 ks t name chunks :
+  forallb (fun x => negb (row_is ks t x)) r2 = true -> ends_with name murmur3_suffix = true ->
+  (Z.of_nat (List.length (List.concat chunks)) < 2 ^ 63)%Z ->
+  feed (prepared_partitioner (Some (r1 ++ ((ks, t), Some name) :: r2)%list) true (Some (ks, t))) chunks
+  = murmur3_token_spec (List.concat chunks).
+Proof.
+  intros H He Hb. apply (murmur3_table_chain _ ks t name chunks); [apply partitioners_get_last_row; exact H|exact He|exact Hb].
+Qed.
+
+(* everything else gives the default: no row, a null row, an unknown class, a table unknown to
+   the metadata, no scylla_tables at all, a statement without bind columns *)
+Theorem default_partitioner_cases rows ks t :
+  prepared_partitioner None true (Some (ks, t)) = PMurmur3 /\
+  prepared_partitioner (Some rows) false (Some (ks, t)) = PMurmur3 /\
+  prepared_partitioner (Some rows) true None = PMurmur3 /\
+  (partitioners_get rows ks t None = None -> prepared_partitioner (Some rows) true (Some (ks, t)) = PMurmur3) /\
+  (partitioners_get rows ks t None = Some None -> prepared_partitioner (Some rows) true (Some (ks, t)) = PMurmur3).
+Proof.
+  repeat split; try reflexivity; intros H; unfold prepared_partitioner, table_meta_partitioner; rewrite H; reflexivity.
+Qed.
